@@ -8,20 +8,30 @@ race-free between point operations and never self-deadlock (DESIGN 3/C10).  Two 
     NoDataRace.  A violation here is a PREDICTION about the code; it is confronted with real behaviour before
     anything is reported (a predicted self-deadlock must show as a watchdog timeout of that very method, a
     predicted race as a race-detector report for that very pair of methods); prediction and behaviour that do
-    not agree are a machinery failure (exit 2), never a violation.
+    not agree are a machinery failure (exit 2), never a violation -- unless the behaviour itself was already
+    rejected by a trace specification and reproduced: a reproduced hang or race stands whatever the table says.
+    The same exploration lists the point operations made of several critical sections (NoSplit): a hint for (A3).
 (A1) Trace_LockDiscipline / footprint: each public method (reflection: the methods the COMPILED type has, which
     must be the table's) is called while the harness holds the instance lock (reflect + unsafe on the private
     lock field): it parks on that lock iff the table says it takes it.  The table is code-derived: a footprint the
     table does not explain is a machinery failure.
-(A2) Trace_LockDiscipline / watchdog: each public method on a populated and on an empty instance: returned |
-    panicked | timeout; the specification has no action for timeout, nor for a lock that stayed taken.
-(A3) Trace_Linearize: thousands of small concurrent histories (2-4 goroutines x 3-6 point operations, three hot
-    keys sharing a bucket, one-bucket tables that re-hash constantly, bounds that evict) per type; invocation /
-    response order from one atomic counter; accepted iff TLC finds linearization points (silent Lin steps, DFS
-    queue, high-water mark) and the final content is the one the linearization leaves.
+(A2) Trace_LockDiscipline / watchdog: each public method in every state its helper paths depend on (populated with
+    an existing key; empty; growing: 170 fresh keys across the re-hash thresholds; full: SetMax / capacity 3 in force
+    and reached, fresh and existing keys alternating): returned | panicked | timeout; the specification has no action
+    for timeout, nor for a lock that stayed taken.  A hang anywhere ends as a recorded Timeout event, never as a
+    driver timeout (hangs are capped per type).
+(A3) Trace_Linearize: thousands of concurrent histories per type in four shapes (mix: 2-4 goroutines x 3-6 random
+    point operations on three hot keys sharing a bucket; duel: a populated instance and the same one or two
+    operations meeting themselves, mostly in lockstep rounds; grow: the default table re-hashing under lookups; block:
+    several consumers in the blocking dequeue of either queue, fewer elements per broadcast than waiters), one-bucket
+    tables that re-hash constantly, bounds that evict, GOMAXPROCS all/1/2/4 and injected yields / sleeps; invocation /
+    response order from one atomic counter; accepted iff TLC finds linearization points (silent Lin steps, DFS queue,
+    high-water mark) and the final content is the one the linearization leaves.  The point operations TLC lists as
+    made of several critical sections (NoSplit, a hint) get directed duel histories against themselves.
 (A4) Trace_LockDiscipline / race: the same programs run unstamped in a race-detector build; every race report
     becomes a Race(a, b) event; the specification has an action for it only when a or b is not a point
-    operation."""
+    operation.  A pair TLC predicts to race is hammered through hot keys, fresh keys (growth) and a bound in force
+    (eviction), each side repeating its calls until the other is through, until the detector confirms it."""
 import json, os, re, shutil
 import vf
 
@@ -114,6 +124,44 @@ def model_check(run, workers):
     return dead, races, other, splits
 
 
+def validate_past_unconfirmed(run, outdir, meta, deferred, what, attempts=4):
+    """run.validate for timing-dependent histories: a rejection that the triage could not reproduce ends the
+    validation of its trace (vf raises); it is remembered as a deferred machinery failure and the histories AFTER
+    the unreproduced one are still judged (a few times over), so that one elusive execution does not hide the rest."""
+    jobs = list(meta.get("jobs", []))
+    for _ in range(attempts):
+        m = dict(meta)
+        m["jobs"] = jobs
+        try:
+            run.validate(outdir, m, dfs=True)
+            return
+        except vf.MachineryError as ex:
+            vf.log("DEFERRED machinery failure (%s): %s" % (what, str(ex)[:300]))
+            deferred.append(ex)
+            mm = re.search(r"rejection of (\w+)/(\d+) did not reproduce", str(ex))
+            if not mm:
+                return
+            gen, case = mm.group(1), int(mm.group(2))
+            rest = []
+            for j in jobs:
+                p = os.path.join(outdir, j["trace"])
+                hs = vf.split_histories(open(p).read().splitlines())
+                idx = next((i for i, h in enumerate(hs) if vf.is_reset(h[0]) and json.loads(h[0]).get("gen") == gen and json.loads(h[0]).get("case") == case), None)
+                if idx is None:
+                    continue                       # this trace was accepted or lies before the unreproduced history
+                tail_hs = hs[idx + 1:]
+                later = [x for x in jobs if x is not j and jobs.index(x) > jobs.index(j)]
+                if tail_hs:
+                    name = "_rest%d_%s" % (len(deferred), j["trace"].lstrip("_"))
+                    open(os.path.join(outdir, name), "w").write("\n".join(ln for h in tail_hs for ln in h) + "\n")
+                    rest.append(dict(j, trace=name, events=sum(len(h) for h in tail_hs), histories=len(tail_hs)))
+                rest += later
+                break
+            if not rest:
+                return
+            jobs = rest
+
+
 def body(run):
     th = run.thorough()
     w = run.pick(4, 16)
@@ -144,24 +192,16 @@ def body(run):
     # does not come back in the 60 re-executions of the triage is a machinery failure, but only at the END of the
     # run -- the lock-discipline stages below do not depend on it and may have a verdict about the same defect
     deferred = []
-    try:
-        run.validate(out, sub(meta, ["lin"]), dfs=True)
-    except vf.MachineryError as ex:
-        vf.log("DEFERRED machinery failure (linearizability stage): %s" % str(ex)[:300])
-        deferred.append(ex)
+    validate_past_unconfirmed(run, out, sub(meta, ["lin"]), deferred, "linearizability stage")
     # (A3') the point operations TLC found to be made of several critical sections, against themselves
     bytype = {}
     for ty, m in sorted(splits):
         bytype.setdefault(ty, []).append(m)
     directed = {}
     for ty, ms in sorted(bytype.items()):
-        outd, metad = run.drive("c10", gen="lin", args={"types": ty, "ops": "+".join(ms), "cases": run.pick(300, 3000)}, timeout=2400)
+        outd, metad = run.drive("c10", gen="lin", args={"types": ty, "ops": "+".join(ms), "cases": run.pick(1200, 8000), "budget_ms": run.pick(4000, 40000)}, timeout=2400)
         before = len(run.violations)
-        try:
-            run.validate(outd, sub(metad, ["lin"]), dfs=True)
-        except vf.MachineryError as ex:
-            vf.log("DEFERRED machinery failure (directed histories of %s): %s" % (ty, str(ex)[:300]))
-            deferred.append(ex)
+        validate_past_unconfirmed(run, outd, sub(metad, ["lin"]), deferred, "directed histories of %s" % ty)
         directed["%s.%s" % (ty, "+".join(ms))] = dict(histories=sum(j.get("histories", 0) for j in metad.get("jobs", [])),
                                                       rejected=len(run.violations) - before)
     run.extra["directed_histories_for_operations_of_several_critical_sections"] = directed
@@ -213,7 +253,9 @@ def body(run):
         "point operations are fixed by name in LockDiscipline.tla from the property statement (put/add/get/contains/remove/remove-first/last/clear/size/is-empty/enqueue/dequeue families); enumerations (Keys/Values/Entries and the enumerators), whole-structure operations and configuration calls (SetMax, SetCapacity, GetCapacity, SetNullValue, IsFull) racing against mutators are outside the property: such race reports are accepted by the trace specification and counted in the evidence; freedom from self-deadlock is checked for every public method",
         "race freedom is decided on the executions run (race detector as observation channel; goroutines unsynchronised except for the start barrier and the instance's own lock) plus the exhaustive exploration of the extracted field/lock table; it is not a proof over all schedules of the real code",
         "linearizability is decided on many small histories; invocation/response order is the order of stamps from one atomic counter (before the call, after the return), never wall-clock order; results are projected with the standard library only (adapters of harness/c09 and harness/c12); the answer of put/add for a NEW key and of Add in the plain maps is judged as leniently as in C09/C12",
-        "sequential object: LinkedDict for all (the plain maps as the dictionary whose order is never observed, the list and the single queue as the deque of unique elements with LinkedDict's bound); the double queue's linearizability is C11's (Trace_ReqQueue) and it takes part here in the static model, the footprint/watchdog binding and the race observation only",
-        "watchdogs (4 s per call, 15 s per history) only have to beat scheduler stalls: a spurious timeout does not reproduce in the triage re-run and ends as exit 2; a call that panics is accepted by the lock-discipline binding (panics of single calls are C09/C12's subject) but not inside a concurrent history",
+        "sequential object: LinkedDict for all (the plain maps as the dictionary whose order is never observed, the list and the single queue as the deque of unique elements with LinkedDict's bound, the double queue as the dictionary whose value is the lane of an element, each lane with its own bound, lane 1 served first); a blocking dequeue can take effect only on a non-empty queue; programs with blocking dequeues are built so that every one of them is served whatever the schedule (unbounded queue, producers that never dequeue and put at least as many elements as there are blocking calls)",
+        "schedules are not forced (no hooks): overlap comes from start barriers, lockstep rounds (harness-side spin barriers before each call), GOMAXPROCS variation, injected yields and sleeps and repetition; all of it only decides WHICH interleaving is observed; a rejected concurrent history is re-executed up to 400 times on fresh instances and every execution is judged by TLC; a rejection that does not come back is a machinery failure reported at the end of the run",
+        "NoSplit (a point operation is one critical section on its instance) is explored by TLC on the extracted table but is a hint, not a verdict: the operations it lists (on the unchanged tree the queues' GetTimeout, a retry loop over GetNoWait) get directed concurrent histories, and only a non-linearizable real history is a violation",
+        "watchdogs (4 s per call or per sequence of calls in one state, 15 s per history) only have to beat scheduler stalls: a spurious timeout does not reproduce in the triage re-run and ends as exit 2; a call that panics is accepted by the lock-discipline binding (panics of single calls are C09/C12's subject) but not inside a concurrent history",
         "the instance lock is reached by reflect+unsafe on the private lock field named by the table; 'parked on the lock' is read from the waiter count in sync.Mutex's state word (Go 1.2x layout), no timing involved",
     ]
